@@ -158,6 +158,7 @@ type Exec struct {
 	hardMemo  map[*Term]bool
 	fixed     *Violation // concrete replay inside the interpreter
 	builders  map[string]StrV
+	syncMaps  map[string]MapV
 }
 
 type nondetRec struct {
@@ -232,6 +233,7 @@ func (e *Exec) initPhase(pkg *ssa.Package) (err string) {
 	e.nondetN = map[string]int{}
 	e.covers = map[string]bool{}
 	e.builders = map[string]StrV{}
+	e.syncMaps = map[string]MapV{}
 	e.saved = map[*Obj]Value{}
 	defer func() {
 		if r := recover(); r != nil {
@@ -281,6 +283,7 @@ func (e *Exec) resetPath() {
 	}
 	e.wgs = map[string]int{}
 	e.builders = map[string]StrV{}
+	e.syncMaps = map[string]MapV{}
 	e.pathAll = nil
 	e.nondetN = map[string]int{}
 	e.pathVars = nil
